@@ -82,6 +82,10 @@ import "crypto/rsa"
 
 // VerifMojangKey exposes the embedded services key (the harness needs its modulus and size).
 func VerifMojangKey() *rsa.PublicKey { return pubKey }
+
+// VerifSetMojangKey replaces the trusted services key (history part: a genuine pair is needed
+// before replays can be tried) and returns the previous one.
+func VerifSetMojangKey(k *rsa.PublicKey) *rsa.PublicKey { old := pubKey; pubKey = k; return old }
 GO
 entries+=("\"$repo/yggdrasil/user/zz_verif_c18.go\": \"$w/user_verif.go\"")
 for f in yggdrasil/user/validator.go yggdrasil/user/pubkey.go offline/uuid.go; do
